@@ -102,7 +102,13 @@ def chainOf (nodes : List CNode) (rules : List Rule) (edge target : Bytes) (star
 def allRestart (chain : List (Hop × Option Rule)) : Bool :=
   chain.all fun (_, r) => match r with | some r => r.restartOnRedirect | none => false
 
-/-! ### Known-finding classes (on the input) -/
+/-! ### Known-finding classes (on the input)
+
+   (C18-c — a loop whose hops are all stored was followed without bound and without origin
+   contact — has been repaired together with C18-a by the per-request redirect counter; it never
+   had a predicate on the input: its class was "the model's run is cut as `runaway` on a looping
+   chain", which `Props.C18Cache.cached_terminates` now excludes.  The regression stream kf.C18-c
+   must pass.) -/
 
 /-- C18-d: a redirect on the chain carries a directive that forbids storing it, at a hop where
     some rule met so far has a cache (the cached branch of the handler hands such a redirect to
